@@ -122,6 +122,9 @@ def check(run):
               construct=f'R-AXIS::{Q}::frame-count')
     # source axis roll
     rolls = [e for e in g.events if e.kind == 'call' and is_call_to(e.term, 'numpy.rollaxis', 'numpy.moveaxis')]
+    swaps = [e for e in g.events if e.kind == 'call' and is_call_to(e.term, 'numpy.swapaxes', 'method:swapaxes') and any(axis_param(c.args[1]) == 'source_dim' for c, p in e.guards if c.op == 'cmp')]
+    run.check(not swaps, 'R-ROLE', 'PSD: the source axis is MOVED to the requested position, the other leading axes keep their order', fn.loc(), '',
+              'the source axis is exchanged (swapaxes) with a leading axis: for more than one leading axis the leading axes are permuted', construct=f'R-ROLE::{Q}::source-axis-swapped')
     okr = bool(rolls)
     for e in rolls:
         ok1 = False
